@@ -43,9 +43,17 @@ def chain_loop(ctx: Ctx, rule: str) -> None:
     ctx.require_locals(MANU, ["retcode", "setup_chain", "setup_func", "run_params"])
     loop = the_loop(ctx, MANU, ast.For, lambda l: any(call_name(c) == "getattr" for c in calls_in(l)), "setup chain loop")
     chain_defs = [s for s in fn.node.body if isinstance(s, ast.Assign) and ast.unparse(s.targets[0]) == "setup_chain"]
-    ok_iter = ast.unparse(loop.iter) == "enumerate(setup_chain)" and len(chain_defs) == 1 and ast.unparse(chain_defs[0].value) == "run_params.objects('setup')"
-    ctx.record(rule, "PROV", MANU, "the loop iterates enumerate(run_params.objects('setup')) directly (no sorting, reversal or de-duplication)", ok_iter,
-               {"iter": ast.unparse(loop.iter)}, "" if ok_iter else "the setup chain is not executed in the given order")
+    # the chain is the value of `setup` split into words, as given: virttest's Params.objects() de-duplicates (documented use: several
+    # `run` steps in one chain), so it must not be what builds the chain; neither may anything that sorts, reverses or collects into a set
+    chain_text = ast.unparse(chain_defs[0].value) if len(chain_defs) == 1 else ""
+    calls_used = {call_name(c) for c in calls_in(chain_defs[0].value)} if len(chain_defs) == 1 else set()
+    reads_setup = any(isinstance(c_, ast.Constant) and c_.value == "setup" for c_ in ast.walk(chain_defs[0].value)) if len(chain_defs) == 1 else False
+    lossy = calls_used & {"objects", "set", "sorted", "reversed", "fromkeys", "unique", "frozenset"}
+    ok_iter = ast.unparse(loop.iter) == "enumerate(setup_chain)" and len(chain_defs) == 1 and reads_setup and not lossy and "split" in calls_used
+    ctx.record(rule, "PROV", MANU, "the loop iterates enumerate(<the words of the setup parameter as given>): no sorting, reversal or de-duplication (Params.objects() de-duplicates)", ok_iter,
+               {"iter": ast.unparse(loop.iter), "chain": chain_text},
+               "" if ok_iter else (f"the setup chain is built with {sorted(lossy)}: a step that is listed twice (e.g. get,boot,get) is executed once - the chain is not executed as given"
+                                   if lossy else "the setup chain is not executed in the given order"))
     esc = [n for n in ast.walk(loop) if isinstance(n, (ast.Break, ast.Return, ast.Continue))]
     ctx.record(rule + "e", "COUNT", MANU, "the chain loop has no break/return/continue", not esc, {}, "" if not esc else "a step can prevent the later steps of the chain")
     step = loop.target.elts[1].id if isinstance(loop.target, ast.Tuple) else None
